@@ -11,7 +11,7 @@ from concurrent.futures import ThreadPoolExecutor
 from .. import build, core, genmod, bundle, gfind
 from . import c01
 
-WRAP = ["-Wl,--wrap=malloc", "-Wl,--wrap=calloc", "-Wl,--wrap=realloc", "-Wl,--wrap=free"]
+WRAP = ["-Wl,--wrap=malloc", "-Wl,--wrap=calloc", "-Wl,--wrap=realloc", "-Wl,--wrap=free", "-rdynamic", "-ldl"]
 DRV = ("gen_c14_driver.c", "ops_gen_core.c", "ops_gen_c14.c", "reflect.c", "alloc_wrap.c")
 DEC_SYN = ("ber", "uper", "oer", "xer")
 ENC_OF = {"ber": "der", "uper": "uper", "oer": "oer", "xer": "xer"}
@@ -43,7 +43,17 @@ PROPOSED_FINDINGS = [
   "witness": {"module": OS_MODULE, "type": "T", "op": "hist 3 !dec:ber:300a80030102038103616263;encb:der",
               "expect": r"CRASH .*asn_application\.c:\d+:\d+: runtime error: null pointer passed as argument 2"},
   "matcher": "asn_encode_to_new_buffer (`encb`) of a structure whose last decode did not return RC_OK; crash summary "
-             "`asn_application.c: null pointer passed as argument 2`; the generator uses a null callback for `enc` on such structures"},
+             "`asn_application.c: null pointer passed as argument 2` (or `constr_TYPE.c: null pointer passed as argument 1` = "
+             "fwrite(NULL,1,0,..) in _print2fp under asn_fprint, step `printf`); the generator uses a null callback for "
+             "`enc` / `print` on such structures"},
+ {"id": "F141", "property": "C14", "status": "known",
+  "what": "CHOICE_decode_ber never returns on `00 xx` (xx != 00) where the end-of-contents octets of an indefinite-length "
+          "tagged CHOICE are expected: the `while(ctx->left < 0)` loop of phase 3 neither advances nor returns when the "
+          "first octet is 0 and the second is not (comment says UNREACHABLE) => infinite loop on a 12-octet input "
+          "(belongs to C04 'decoding terminates'; seen here because histories decode bit-flipped garbage)",
+  "witness": {"module": "W3 DEFINITIONS ::= BEGIN T ::= SEQUENCE { c [0] CHOICE { a NULL, b BOOLEAN } } END", "type": "T",
+              "op": "hist -1 dec:ber:3080a080050000ff00000000", "expect": r"HANG step=0 at=\S*CHOICE_decode_ber"},
+  "matcher": "a BER decode step that does not return within 2 s, innermost library frames ber_fetch_tag<CHOICE_decode_ber or CHOICE_decode_ber"},
 ]
 
 # ---------------------------------------------------------------- fixed lifecycle module
@@ -175,12 +185,13 @@ def parse_hist(o):
 
 OK_RC = {"dec": {"ok", "more", "fail", "skip"}, "decp": {"ok", "more", "fail", "skip"}, "decr": {"ok", "more", "fail", "skip"},
          "reset": {"z1", "z0", "skip"}, "free": {"done"}, "end": {"done"}, "enc": {"ok", "fail", "skip"}, "encb": {"ok", "fail", "skip"},
-         "print": {"ok", "fail", "skip"}, "check": {"ok", "fail", "skip"}}
+         "print": {"ok", "fail", "skip"}, "printf": {"ok", "fail", "skip"}, "check": {"ok", "fail", "skip"}}
 
 def judge(o):
     """property predicate on one hist output line: None if fine, else a short reason"""
     if o is None: return "no-output"
     if o.startswith("CRASH"): return "crash"
+    if "HANG step=" in o: return "hang:" + o.split("at=")[-1][:80]
     st = parse_hist(o)
     if st is None: return "unparsable"
     for s in st:
@@ -312,7 +323,7 @@ def run(ctx):
             ctx.findings.append(f)
             ctx.assumptions.append(f"finding {f['id']} (property C14) is not in KNOWN_FINDINGS.json yet; using the proposed entry embedded in vlib/props/c14.py")
     ctx.assumptions += [
-        "API-conforming histories only: a decode is issued into a NULL / freshly RESET structure, or continues after RC_WMORE of a restartable syntax (BER, XER, OER); the harness reports other decode steps as `skip`",
+        "API-conforming histories only: a decode is issued into a NULL / freshly RESET structure, or continues after RC_WMORE of a restartable syntax (BER, XER, OER); encode/print/check are issued only while the structure holds a completely decoded value (last decode RC_OK, no RESET since); the harness reports other such steps as `skip` (what encoders do with half-built structures belongs to C04/C07)",
         "allocation sites and their order are observed through the malloc/calloc/realloc/free ledger (ld --wrap), not verified; ASan/UBSan/LSan observe memory errors on the sampled histories only",
         "K leg: the ownership tree is read from the C structure by harness/ops_gen_c14.c (descriptor walk, private copy of OCTET_STRING.c's struct _stack layout)"]
     ctx.lean()
@@ -463,10 +474,11 @@ def run(ctx):
             total += 1
             why = None
             if o is None or o.startswith("CRASH"): why = "crash"
+            elif "HANG step=" in o: why = "hang:" + o.split("at=")[-1][:80]
             elif not o.startswith("same "): why = "reset-differs-from-fresh"
             elif " zeroed=1 " not in o + " ": why = "not-zeroed"
             elif not o.endswith("live=0 doublefree=0"): why = "leak"
-            if why: record(line, o, "fvr:" + why if why != "crash" else why, h)
+            if why: record(line, o, why if why == "crash" or why.startswith("hang:") else "fvr:" + why, h)
             else: ctx.count_nontrivial(("fvr", h["tn"], h["syn"], o.split()[1]))
         ctx.log(f"module {m['name']}: {len(cases)} values, {len(hist)} histories, {len(l2)} allocation-failure runs ({cr2} crashes), {len(l3)} fresh-vs-reset")
         b.cleanup()
@@ -498,6 +510,7 @@ def run(ctx):
         f = None
         if kind.startswith("crash:constr_SET_OF.c:member access within null pointer"): f = "F7"
         elif kind.startswith("crash:asn_application.c:null pointer passed as argument 2"): f = "F140"
+        elif kind.startswith("hang:") and re.match(r"hang:(ber_fetch_tag<)?CHOICE_decode_ber<", kind) and ":ber:" in s["op"]: f = "F141"
         if f:
             fd = next((x for x in ctx.findings if x["id"] == f), None)
             if fd: ctx.known(fd); ctx.log(f"known finding {f}: {n} runs"); continue
